@@ -19,7 +19,7 @@ META = {
     "workers": {"quick": 8, "thorough": 16},
     "timeout": {"quick": 600, "thorough": 5400},
     "deciding": [
-        "C11.kmesh.n", "C11.operand_untouched", "C11.repeatable",
+        "C11.kmesh.n", "C11.operand_untouched", "C11.repeatable", "C11.mesh_level.shape_accepted",
         "C11.kmesh.frequencies",
         "C11.kmesh.names_units",
         "C11.dft",
@@ -115,6 +115,14 @@ class Setup:
             self.mapping = gen.shuffle_keys(
                 rng, {self.labels[j]: self.names[int(perm[j])] for j in range(nv)})
             self.map_kind = "permutation"
+        elif nv > nd and nv > 1 and rng.random() < 0.5:
+            # more components than axes: the extra ones point along no axis (None), the
+            # usual form for a 3-component field on a 2-d mesh
+            perm = rng.permutation(nv)
+            self.mapping = gen.shuffle_keys(
+                rng, {self.labels[int(perm[j])]: (self.names[j] if j < nd else None)
+                      for j in range(nv)})
+            self.map_kind = "partial_with_None"
         self.real = real
         self.arr = gen.rand_values(rng, (*self.n, nv), "float" if real else "complex")
         if real and rng.random() < 0.2:
@@ -177,7 +185,8 @@ def check_kmesh(ctx, su, km, rfft, transform):
 
 def check_labels_forward(ctx, su, f, F, transform):
     exp_v = None if f.vdims is None else ["ft_" + v for v in f.vdims]
-    exp_m = {"ft_" + k: "k_" + v for k, v in (f.vdim_mapping or {}).items()}
+    exp_m = {"ft_" + k: (None if v is None else "k_" + v)
+             for k, v in (f.vdim_mapping or {}).items()}
     ctx.check("C11.labels.forward",
               F.vdims == exp_v and dict(F.vdim_mapping or {}) == exp_m and F.nvdim == su.nv,
               got_vdims=F.vdims, got_mapping=F.vdim_mapping, expected_vdims=exp_v,
@@ -273,6 +282,19 @@ def complex_transform(ctx):
     km = su.mesh.fftn()
     ctx.check("C11.mesh_level", mesh_same(km, F.mesh) and mesh_same(km.ifftn(), b.mesh),
               what="Mesh.fftn / Mesh.ifftn vs the meshes of Field.fftn / ifftn", **info)
+    # the complex inverse of the mesh with the explicit (original) shape is the same mesh;
+    # another last-axis count is not the shape of this k-mesh
+    shape = gen.pick(ctx.rng, [tuple(su.n), list(su.n), np.array(su.n)])
+    oks, ms = ctx.expect_ok("C11.mesh_level.shape_accepted", lambda: km.ifftn(shape=shape),
+                            what=dict(info, shape=su.n))
+    if oks:
+        ctx.check("C11.mesh_level", mesh_same(ms, b.mesh),
+                  what="Mesh.ifftn(shape=n) of the complex transform vs Field.ifftn's mesh", **info)
+    wrong = list(su.n)
+    wrong[-1] = int(ctx.rng.choice([2 * (su.n[-1] - 1) + 2, 2 * su.n[-1] - 1, su.n[-1] + 1, 2 * su.n[-1]]))
+    if wrong[-1] != su.n[-1] and wrong[-1] >= 1:
+        ctx.expect_raises("C11.mesh_level.wrong_shape_rejected", lambda: km.ifftn(shape=tuple(wrong)),
+                          unchanged=[km], what=dict(info, shape=wrong))
 
 
 def real_transform(ctx):
